@@ -174,9 +174,11 @@ def check_assets_helper(ctx, v, value_op, sb, callee_rx, asset, key):
         o = work.pop()
         c = call_of(v, o)
         if c and re.search(callee_rx, mname(c[1])):
-            a1 = v.origins_of_operand(c[1]["args"][1], at=v.at_term(c[0]), taint=True)
-            seen.append(repr(o))
-            if not any(x.kind == "param" and x.a == asset for x in a1):
+            # the list handed to the helper holds the declared asset itself and nothing else (the user's stored bond,
+            # for instance, is derived from it too but is the cumulative amount)
+            a1 = v.origins_of_operand(c[1]["args"][1], at=v.at_term(c[0]))
+            seen.append("%r(.., %s)" % (o, sorted(map(repr, a1))))
+            if not (a1 and all(x.kind == "param" and x.a == asset and not [e for e in x.proj if not e.startswith("[")] for x in a1)):
                 ok = False
             continue
         ex = expand_passthrough(v.model, v, {o})
